@@ -56,6 +56,40 @@ fn frame_body<const B: usize, const T: usize>(ty: u8) {
     core::mem::forget(r);
 }
 
+/// A complete Message frame whose payload starts with the bincode `None` tag (no
+/// headers - the bulk of real traffic) followed by `B` arbitrary bytes: every message
+/// length prefix, truncated or not. (The `Some` tag drags the header map in and is only
+/// reachable with 1 payload byte, `c06_frame_t4_b1`.)
+fn frame_msg_none<const B: usize, const T: usize>() {
+    let rest: [u8; B] = kani::any();
+    let mut raw = [0u8; T];
+    raw[..8].copy_from_slice(&((B + 1) as u64).to_be_bytes());
+    raw[8] = 4;
+    raw[9] = 0;
+    raw[10..].copy_from_slice(&rest);
+    let mut buf = BytesMut::from(&raw[..]);
+    let mut codec = MessageCodec;
+    let r = codec.decode(&mut buf);
+    match &r {
+        Ok(Some(Frame::Message(m))) => {
+            kani::cover!(true, "opt:some payload of this kind decodes");
+            assert!(buf.is_empty(), "consumed exactly the frame");
+            assert!(m.headers.is_none() && m.message.len() + 8 <= B, "message no longer than what was sent");
+        }
+        Ok(Some(_)) => panic!("frame kind changed"),
+        Ok(None) => panic!("complete frame present but decoder waits"),
+        Err(_) => {
+            kani::cover!(true, "opt:some payload of this kind is rejected");
+        }
+    }
+    kani::cover!(true, "decoder returned (no panic path taken)");
+    core::mem::forget(r);
+}
+proof!(c06_frame_t4_none_b0, 12, { frame_msg_none::<0, 10>() });
+proof!(c06_frame_t4_none_b4, 12, { frame_msg_none::<4, 14>() });
+proof!(c06_frame_t4_none_b8, 12, { frame_msg_none::<8, 18>() });
+proof!(c06_frame_t4_none_b10, 14, { frame_msg_none::<10, 20>() });
+
 proof!(c06_frame_t0_b0, 12, { frame_body::<0, 9>(0) });
 proof!(c06_frame_t1_b1, 12, { frame_body::<1, 10>(1) });
 proof!(c06_frame_t2_b9, 20, { frame_body::<9, 18>(2) });
